@@ -23,6 +23,7 @@ type pathElem struct {
 	field  int
 	arrIdx string // non-empty: array index step
 	arrT   *types.Array
+	opq    bool // field of an opaque (external) struct: uninterpreted getter / setter
 }
 
 type Loc struct {
@@ -316,6 +317,9 @@ func (v *FnVerifier) loadLoc(st *State, l *Loc) string {
 	for _, p := range l.path {
 		if p.arrIdx != "" {
 			c = sel(c, p.arrIdx)
+		} else if p.opq {
+			f := v.smt.declareFun("getf!"+p.dt+"!"+p.st.Field(p.field).Name(), []string{p.dt}, v.smt.sortOf(p.st.Field(p.field).Type()))
+			c = app(f, c)
 		} else {
 			c = fmt.Sprintf("(%s!%s %s)", p.dt, p.st.Field(p.field).Name(), c)
 		}
@@ -330,6 +334,12 @@ func (v *FnVerifier) updPath(cell string, path []pathElem, val string) string {
 	p := path[0]
 	if p.arrIdx != "" {
 		return sto(cell, p.arrIdx, v.updPath(sel(cell, p.arrIdx), path[1:], val))
+	}
+	if p.opq {
+		ft := v.smt.sortOf(p.st.Field(p.field).Type())
+		g := v.smt.declareFun("getf!"+p.dt+"!"+p.st.Field(p.field).Name(), []string{p.dt}, ft)
+		f := v.smt.declareFun("setf!"+p.dt+"!"+p.st.Field(p.field).Name(), []string{p.dt, ft}, p.dt)
+		return app(f, cell, v.updPath(app(g, cell), path[1:], val))
 	}
 	var fs []string
 	for i := 0; i < p.st.NumFields(); i++ {
